@@ -255,6 +255,9 @@ pub fn parse_complete<F: LemireFloat, const FORMAT: u128>(
             || NumberFormat::<FORMAT>::REQUIRED_MANTISSA_DIGITS
         {
             return Err(Error::Empty(byte.cursor()));
+        } else if NumberFormat::<FORMAT>::REQUIRED_EXPONENT_NOTATION {
+            // Not even a lone sign can do without the exponent.
+            return Err(Error::MissingExponent(byte.cursor()));
         } else {
             // No digits are required: a lone sign is a signed zero.
             return Ok(if is_negative { -F::ZERO } else { F::ZERO });
@@ -299,6 +302,9 @@ pub fn fast_path_complete<F: LemireFloat, const FORMAT: u128>(
             || NumberFormat::<FORMAT>::REQUIRED_MANTISSA_DIGITS
         {
             return Err(Error::Empty(byte.cursor()));
+        } else if NumberFormat::<FORMAT>::REQUIRED_EXPONENT_NOTATION {
+            // Not even a lone sign can do without the exponent.
+            return Err(Error::MissingExponent(byte.cursor()));
         } else {
             // No digits are required: a lone sign is a signed zero.
             return Ok(if is_negative { -F::ZERO } else { F::ZERO });
@@ -325,6 +331,9 @@ pub fn parse_partial<F: LemireFloat, const FORMAT: u128>(
             || NumberFormat::<FORMAT>::REQUIRED_MANTISSA_DIGITS
         {
             return Err(Error::Empty(byte.cursor()));
+        } else if NumberFormat::<FORMAT>::REQUIRED_EXPONENT_NOTATION {
+            // Not even a lone sign can do without the exponent.
+            return Err(Error::MissingExponent(byte.cursor()));
         } else {
             // No digits are required: a lone sign is a signed zero.
             return Ok((if is_negative { -F::ZERO } else { F::ZERO }, byte.cursor()));
@@ -387,6 +396,9 @@ pub fn fast_path_partial<F: LemireFloat, const FORMAT: u128>(
             || NumberFormat::<FORMAT>::REQUIRED_MANTISSA_DIGITS
         {
             return Err(Error::Empty(byte.cursor()));
+        } else if NumberFormat::<FORMAT>::REQUIRED_EXPONENT_NOTATION {
+            // Not even a lone sign can do without the exponent.
+            return Err(Error::MissingExponent(byte.cursor()));
         } else {
             // No digits are required: a lone sign is a signed zero.
             return Ok((if is_negative { -F::ZERO } else { F::ZERO }, byte.cursor()));
